@@ -44,6 +44,9 @@ def _shapes(tier):
         for kv in A.clamped_kvs(p, B, G):
             out.append(A.shape_desc([kv], [p], False, 3, 'coded'))
             out.append(A.shape_desc([kv], [p], True, 2, 'seeded', 'coded'))
+    # the tall thin slice: degree up to 6, up to 12 (thorough 20) control points
+    from .. import util_knots as K
+    out += K.tall_curve_shapes(tier)
     degs = [1, 2, 3]
     for pu, pv in itertools.product(degs, degs):
         ru = A.rep_kvs(pu, 1)[:3] if q else A.rep_kvs(pu, 1)
@@ -54,6 +57,7 @@ def _shapes(tier):
             out.append(A.shape_desc([ku, kv], [pu, pv], False, 3, 'coded'))
             if not q or (pu + pv) <= 4:
                 out.append(A.shape_desc([ku, kv], [pu, pv], True, 3, 'coded', 'coded'))
+    out += K.tall_surface_shapes(tier)
     for pu, pv, pw in itertools.product([1, 2], repeat=3):
         reps = lambda p: A.rep_kvs(p, 1)[:2] if q else A.rep_kvs(p, 1)[:3]
         for ku, kv, kw in itertools.product(reps(pu), reps(pv), reps(pw)):
